@@ -18,6 +18,7 @@ import (
 	"context"
 	"errors"
 	"fmt"
+	"reflect"
 	"regexp"
 	"runtime"
 	"sort"
@@ -102,6 +103,7 @@ type evT struct {
 	idx                         int // registration index (canonicalisation only)
 	name, hook, fld, out, fault int
 	path                        string // resolve hooks: the response path of the field (response-tree oracle only)
+	val                         string // resEnd: canonical rendering of the VALUE argument of ResolveFieldFinishFunc (finish-value oracle only)
 }
 
 func (e evT) wire() []int { return []int{e.name, e.hook, e.fld, e.out, e.fault} }
@@ -113,7 +115,38 @@ var (
 	curExts []extCfg
 	curTab  map[string][]int // response key -> [index, outcome]
 	curLog  []evT
+	curRet  map[string]string // response path -> rendering of the value the resolve function of that position RETURNED (absent: it panicked / never ran)
 )
+
+// renderVal: canonical rendering of a value handed to / returned by a resolve function: "nil", JSON (sorted keys) for
+// scalars, maps and lists, "func" for thunks, the Go type (and Name(), if any) for everything else. No addresses.
+func renderVal(v interface{}) string {
+	switch x := v.(type) {
+	case nil:
+		return "nil"
+	case string, bool, int, map[string]interface{}, []interface{}:
+		return hx.Canon(x)
+	}
+	if rv := reflect.ValueOf(v); rv.Kind() == reflect.Func {
+		return "func"
+	} else if (rv.Kind() == reflect.Ptr || rv.Kind() == reflect.Map || rv.Kind() == reflect.Slice || rv.Kind() == reflect.Interface) && rv.IsNil() {
+		return fmt.Sprintf("%T(nil)", v)
+	}
+	if n, ok := v.(interface{ Name() string }); ok {
+		return fmt.Sprintf("%T(%s)", v, n.Name())
+	}
+	return fmt.Sprintf("%T", v)
+}
+
+// returned records what the resolve function of the field at path p returned (the expected value argument of every
+// extension's ResolveFieldFinishFunc for that position; a resolve function that panics records nothing: expected nil)
+func returned(p *graphql.ResponsePath, v interface{}) {
+	mu.Lock()
+	if curRet != nil {
+		curRet[pathStr(p)] = renderVal(v)
+	}
+	mu.Unlock()
+}
 
 func logEv(e evT) {
 	mu.Lock()
@@ -170,7 +203,9 @@ func (e *tExt) cfg() extCfg { return curExts[e.idx] }
 // call logs the hook call and then shows the configured behaviour
 func (e *tExt) call(hook, fld, out int) { e.callP(hook, fld, out, "") }
 
-func (e *tExt) callP(hook, fld, out int, path string) {
+func (e *tExt) callP(hook, fld, out int, path string) { e.callV(hook, fld, out, path, "") }
+
+func (e *tExt) callV(hook, fld, out int, path, val string) {
 	if hook == hResStart {
 		gateFirst()
 	}
@@ -179,7 +214,7 @@ func (e *tExt) callP(hook, fld, out int, path string) {
 	}
 	c := e.cfg()
 	f := c.Beh[hook]
-	logEv(evT{idx: e.idx, name: c.Name, hook: hook, fld: fld, out: out, fault: f, path: path})
+	logEv(evT{idx: e.idx, name: c.Name, hook: hook, fld: fld, out: out, fault: f, path: path, val: val})
 	switch f {
 	case 1:
 		panic(errors.New("E"))
@@ -234,7 +269,7 @@ func (e *tExt) ResolveFieldDidStart(ctx context.Context, i *graphql.ResolveInfo)
 		if err != nil {
 			o = outErr
 		}
-		e.callP(hResEnd, fld, o, ps)
+		e.callV(hResEnd, fld, o, ps, renderVal(v))
 	}
 }
 func (e *tExt) HasResult() bool {
@@ -334,13 +369,26 @@ func value(t graphql.Type, rt, n int) interface{} {
 
 func resolve(p graphql.ResolveParams) (interface{}, error) {
 	entry := enterResolver(p.Info.Path)
+	var v interface{}
+	var err error
 	switch entryAt(entry, 1) {
 	case 1, 3:
-		return nil, errors.New("field failed")
+		err = errors.New("field failed")
+		if entryAt(entry, 5) == retValueAndError {
+			// a (partial) value TOGETHER WITH the error: the response is the same as for (nil, err)
+			v = value(p.Info.ReturnType, entryAt(entry, 2), entryAt(entry, 3))
+		}
 	case 2, 4:
 		panic("resolver boom")
+	default:
+		v = value(p.Info.ReturnType, entryAt(entry, 2), entryAt(entry, 3))
+		if entryAt(entry, 5) == retThunk {
+			inner := v
+			v = func() (interface{}, error) { return inner, nil }
+		}
 	}
-	return value(p.Info.ReturnType, entryAt(entry, 2), entryAt(entry, 3)), nil
+	returned(p.Info.Path, v)
+	return v, err
 }
 
 // instrumentMeta wraps the resolve functions of the library's meta fields (__typename, __schema, __type) and of the
@@ -361,7 +409,9 @@ func instrumentMeta() error {
 		}
 		fd.Resolve = func(p graphql.ResolveParams) (interface{}, error) {
 			enterResolver(p.Info.Path)
-			return orig(p)
+			v, err := orig(p)
+			returned(p.Info.Path, v)
+			return v, err
 		}
 	}
 	return nil
@@ -475,6 +525,7 @@ type fieldSpec struct {
 	N        int
 	NoAlias  bool
 	Dup      int
+	Ret      int // what the resolver hands back besides the outcome: retValueAndError (outcomes 1, 3), retThunk (outcome 0, leaf kinds)
 }
 
 func (f fieldSpec) active(vars map[string]interface{}) bool {
@@ -517,6 +568,14 @@ func condApplies(on, rt string) bool { return on == rt || on == "I" || on == "U"
 const (
 	metaTypename = 1
 	metaOther    = 2
+)
+
+// sixth slot of a table entry: how the resolver returns its outcome. The model does not see it (the hook trace and
+// the response are the same); it only changes the VALUE the finish hooks must be told (finish-value oracle, runGo).
+const (
+	retPlain         = 0
+	retValueAndError = 1 // outcome err / errNN: a non-nil value together with the error
+	retThunk         = 2 // outcome ok, leaf field: func() (interface{}, error) returning the value
 )
 
 // render produces the document (every aliased field under its own response key "a<n>", n in text order) and, for the
@@ -660,11 +719,11 @@ func render(fs []fieldSpec, mutation bool, vars map[string]interface{}) (query s
 	}
 	body := text(fs, rootType, false)
 	// ---- pass 2: what runs (typ = the concrete type of the object the selection is executed for)
-	add := func(tk string, outcome, rt, n, meta int) bool {
+	add := func(tk string, outcome, rt, n, meta, ret int) bool {
 		if _, dup := table[tk]; dup {
 			return false
 		}
-		table[tk] = []int{len(flat), outcome, rt, n, meta}
+		table[tk] = []int{len(flat), outcome, rt, n, meta, ret}
 		flat = append(flat, outcome)
 		return true
 	}
@@ -693,7 +752,12 @@ func render(fs []fieldSpec, mutation bool, vars map[string]interface{}) (query s
 				case "schema", "type":
 					meta = metaOther
 				}
-				if !add(tk, f.Outcome, f.RT, f.N, meta) {
+				if f.Ret == retValueAndError {
+					featSet["resolver:value-and-error"] = true
+				} else if f.Ret == retThunk {
+					featSet["resolver:thunk"] = true
+				}
+				if !add(tk, f.Outcome, f.RT, f.N, meta, f.Ret) {
 					continue // this response key is already collected for this object: the selections merge
 				}
 				if meta == metaTypename {
@@ -717,7 +781,7 @@ func render(fs []fieldSpec, mutation bool, vars map[string]interface{}) (query s
 					}
 				case "schema", "type":
 					for _, k := range subKeys[f] {
-						add(k, 0, 0, 0, metaOther)
+						add(k, 0, 0, 0, metaOther, 0)
 					}
 				}
 			}
@@ -829,6 +893,54 @@ type goResult struct {
 	// response-tree oracle (only when the response has data): the field positions of the response data, the paths each
 	// extension was notified of, and what is wrong ("" = one notification per field position, each finished once)
 	Tree *treeT `json:"tree,omitempty"`
+	// finish-value oracle: what every ResolveFieldFinishFunc call was told as VALUE against what the resolve function of
+	// that position returned
+	Finish *finT `json:"finish,omitempty"`
+}
+
+// finT: "finished WITH THE OUTCOME OF THAT PHASE", value part. The outcome of a resolve phase is what the field's
+// resolve function returned: (value, nil), (nil, err), (value, err) -- a partial value together with an error --, a
+// thunk (the func itself: it is called after the phase), or a panic (no value: nil). Every finish call of every
+// extension for the position must carry exactly that value (the error class is compared through the model). The
+// expectation comes from the harness's own resolvers / the wrappers around the library's meta-field resolvers
+// (`returned`), not from the library's executor.
+type finT struct {
+	Returned      map[string]string `json:"resolverReturned"` // path -> rendering of the returned value (panicking resolver: absent = nil)
+	Told          []string          `json:"finishTold"`       // "x<name>#<idx> <path> value=<rendering> err=<0|1>" per finish call, in call order
+	Checked       int               `json:"checked"`
+	ValueAndError int               `json:"valueAndError"` // finish calls for a resolver that returned a non-nil value together with an error
+	Thunks        int               `json:"thunks"`
+	Panicked      int               `json:"panicked"` // finish calls for a resolver that panicked (expected value nil)
+	Mismatch      string            `json:"mismatch,omitempty"`
+}
+
+func finishOracle(log []evT, ret map[string]string, tab map[string][]int) *finT {
+	t := &finT{Returned: ret, Told: []string{}}
+	for _, e := range log {
+		if e.hook != hResEnd {
+			continue
+		}
+		want, did := ret[e.path]
+		if !did {
+			want = "nil"
+			t.Panicked++
+		}
+		t.Told = append(t.Told, fmt.Sprintf("x%d#%d %s value=%s err=%d", e.name, e.idx, e.path, e.val, e.out-outOk))
+		t.Checked++
+		if did && want != "nil" && e.out == outErr {
+			t.ValueAndError++
+		}
+		if want == "func" {
+			t.Thunks++
+		}
+		if e.val != want && t.Mismatch == "" {
+			t.Mismatch = fmt.Sprintf("extension x%d (registration index %d): ResolveFieldFinishFunc of field %s was told value %s, the resolve function of that field returned %s", e.name, e.idx, e.path, e.val, want)
+			if !did {
+				t.Mismatch += " (it panicked or did not run: no value)"
+			}
+		}
+	}
+	return t
 }
 
 // treeT: "one resolve notification per executed field", decided against the RESPONSE alone: every (object value,
@@ -1029,6 +1141,7 @@ func runGo(c caseT, pp prepared, rq reqT) goResult {
 	copy(curExts, c.Exts)
 	curTab = tableOf(rq)
 	curLog = nil
+	curRet = map[string]string{}
 	mu.Unlock()
 
 	ctx := context.Background()
@@ -1132,6 +1245,8 @@ func runGo(c caseT, pp prepared, rq reqT) goResult {
 	mu.Lock()
 	all := wireLog(curLog)
 	rawLog := append([]evT{}, curLog...)
+	ret := curRet
+	curRet = nil
 	mu.Unlock()
 	g := goResult{Log: all[:nNow], Late: all[nNow:], Errors: [][]int{}, Keys: []int{}, Messages: []string{}}
 	if !drained {
@@ -1158,6 +1273,7 @@ func runGo(c caseT, pp prepared, rq reqT) goResult {
 		g.Keys = append(g.Keys, n)
 	}
 	sort.Ints(g.Keys)
+	g.Finish = finishOracle(rawLog, ret, tableOf(rq))
 	g.HasData = res.Data != nil
 	if data, ok := res.Data.(map[string]interface{}); ok {
 		g.Tree = treeOracle(c, data, rawLog, tableOf(rq))
@@ -1208,6 +1324,7 @@ func sortedInts(a []int) string {
 func fld(kind string, outcome int, children ...fieldSpec) fieldSpec {
 	return fieldSpec{Kind: kind, Outcome: outcome, Children: children, DirVar: -1}
 }
+func withRet(f fieldSpec, ret int) fieldSpec { f.Ret = ret; return f }
 func inc(f fieldSpec, v int) fieldSpec { f.Dir, f.DirVar = 1, v; return f }
 func skp(f fieldSpec, v int) fieldSpec { f.Dir, f.DirVar = 2, v; return f }
 func lit(f fieldSpec, dir int, val bool) fieldSpec {
@@ -1261,7 +1378,7 @@ func directiveShapes() []dirShape {
 	return []dirShape{
 		{"dir-field", []fieldSpec{fld("f", 0), inc(fld("f", 0), 0)}, false, boolVars(true), boolVars(false)},
 		{"dir-nested", []fieldSpec{skp(fld("f", 0), 0), inc(fld("o", 0, fld("f", 0), skp(fld("f", 1), 0)), 1)}, false, boolVars(false, true), boolVars(true, true)},
-		{"dir-inline", []fieldSpec{inc(fld("inline", 0, fld("f", 0), fld("f", 1)), 0), fld("f", 2)}, false, boolVars(true), boolVars(false)},
+		{"dir-inline", []fieldSpec{inc(fld("inline", 0, fld("f", 0), withRet(fld("f", 1), retValueAndError)), 0), fld("f", 2)}, false, boolVars(true), boolVars(false)},
 		{"dir-spread", []fieldSpec{skp(fld("spread", 0, fld("f", 0), fld("o", 0, inc(fld("f", 0), 1))), 0), fld("g", 0)}, false, boolVars(false, true), boolVars(false, false)},
 		{"dir-in-fragment", []fieldSpec{fld("spread", 0, inc(fld("f", 0), 0), fld("f", 0)), fld("f", 1)}, false, boolVars(true), boolVars(false)},
 		{"dir-literal", []fieldSpec{lit(fld("f", 0), 1, true), lit(fld("f", 0), 2, true), fld("f", 0)}, false, nil, nil},
@@ -1300,7 +1417,7 @@ func typenameShapes() []dirShape {
 
 func main() {
 	run := hx.Begin("C17")
-	run.Res.Rule = "0-4 instrumented extensions x request of every outcome class (syntax, validation, operation selection, variable coercion, executed fields ok/err/panic incl. non-null root failures, nested selections below object / interface / union values and below lists (executed once per element), fragments with type conditions, variable-driven and literal @skip/@include on fields / inline fragments / fragment spreads, the meta fields __typename (root of query and mutation, object / abstract parents, below lists, aliased and not, selected twice under one response key, with directives) and __schema / __type with an introspection sub-tree, queries and mutations) x fault assignment (each of the 11 hooks per extension: ok or panic with error/string/int) x entry point (graphql.Do; Do after AddExtensions; PlanQuery or PlanCache.Get before or after AddExtensions followed by ExecutePlan, the plan executed again with other variable values) x request context (live; cancelled or past its deadline before the call; cancelled / deadline expiring while a resolver runs; cancelled inside a finish hook). All single and double faults for 1 and 2 extensions are enumerated over the fixed request shapes on Do with a live context; no fault and all single faults over the directive shapes and the __typename / meta-field shapes x entry points and over the context states; the rest is random. Besides the comparison with the model, whenever the response has data the resolve notifications of every extension are compared with the field positions of Result.Data (one ResolveFieldDidStart with that path per (object value, response key) position, no other, each started phase finished once): an oracle that needs neither the model nor a resolver log. non-trivial = at least one extension and (a faulty hook, or a request that is not a plain success, or a directive, or an entry other than Do, or a context that is not live); distinct by (extension configs, request text, variables, entry, context state)"
+	run.Res.Rule = "0-4 instrumented extensions x request of every outcome class (syntax, validation, operation selection, variable coercion, executed fields ok/err/panic incl. non-null root failures, nested selections below object / interface / union values and below lists (executed once per element), fragments with type conditions, variable-driven and literal @skip/@include on fields / inline fragments / fragment spreads, the meta fields __typename (root of query and mutation, object / abstract parents, below lists, aliased and not, selected twice under one response key, with directives) and __schema / __type with an introspection sub-tree, queries and mutations) x fault assignment (each of the 11 hooks per extension: ok or panic with error/string/int) x entry point (graphql.Do; Do after AddExtensions; PlanQuery or PlanCache.Get before or after AddExtensions followed by ExecutePlan, the plan executed again with other variable values) x request context (live; cancelled or past its deadline before the call; cancelled / deadline expiring while a resolver runs; cancelled inside a finish hook). All single and double faults for 1 and 2 extensions are enumerated over the fixed request shapes on Do with a live context; no fault and all single faults over the directive shapes and the __typename / meta-field shapes x entry points and over the context states; the rest is random. Besides the comparison with the model, whenever the response has data the resolve notifications of every extension are compared with the field positions of Result.Data (one ResolveFieldDidStart with that path per (object value, response key) position, no other, each started phase finished once): an oracle that needs neither the model nor a resolver log. Finish-value oracle: resolvers return (value, nil), (nil, err), a non-nil value TOGETHER WITH an error (scalar / object / list values, nullable and non-null fields), a thunk (leaf fields) or panic; every ResolveFieldFinishFunc call of every extension must be told exactly the value the resolve function of that position returned (nil after a panic), compared against the harness's own record of what its resolvers / the wrapped meta-field resolvers returned. non-trivial = at least one extension and (a faulty hook, or a request that is not a plain success, or a directive, or an entry other than Do, or a context that is not live); distinct by (extension configs, request text, variables, entry, context state)"
 	if err := buildSchemas(); err != nil {
 		run.CheckError("cannot build schemas: " + err.Error())
 		run.Finish()
@@ -1315,6 +1432,7 @@ func main() {
 	defer drv.Close()
 
 	typenameNotifs, treePositions := 0, 0
+	finishValues, valueAndError := 0, 0
 	oneExec := func(c caseT, pp prepared, rq reqT, origin string, nth int) {
 		g := runGo(c, pp, rq)
 		var m modelResp
@@ -1413,6 +1531,20 @@ func main() {
 			}
 			treePositions += len(g.Tree.Positions)
 		}
+		if g.Finish != nil && g.Finish.Checked > 0 {
+			run.Tag("finishValueChecked")
+			finishValues += g.Finish.Checked
+			if g.Finish.ValueAndError > 0 {
+				run.Tag("valueAndError")
+				valueAndError += g.Finish.ValueAndError
+			}
+			if g.Finish.Thunks > 0 {
+				run.Tag("finishValue:thunk")
+			}
+			if g.Finish.Panicked > 0 {
+				run.Tag("finishValue:nil-after-resolver-panic")
+			}
+		}
 		key := hx.Canon(c.Exts) + "|" + rq.Query + "|" + hx.Canon(rq.Vars) + "|" + entry + "|" + ctxMode + "|" + strconv.Itoa(c.CtxAt)
 		sample := map[string]interface{}{"exts": c.Exts, "query": rq.Query, "vars": rq.Vars, "class": rq.Class, "entry": entry, "ctx": ctxMode, "events": len(g.Log), "late_events": len(g.Late), "errors": len(g.Errors)}
 		run.Case(key, len(c.Exts) > 0 && (nFault > 0 || !plainSuccess || entry != "do" || ctxMode != "live" || strings.Contains(rq.Query, "@")), sample)
@@ -1420,6 +1552,10 @@ func main() {
 
 		if g.Escaped != "" {
 			run.Violation("the request was taken down: "+g.Escaped, replay, false)
+			return
+		}
+		if g.Finish != nil && g.Finish.Mismatch != "" {
+			run.Violation("a resolve phase is not finished with the outcome of that phase: "+g.Finish.Mismatch+" ("+"entry "+entry+", context "+ctxMode+")", replay, false)
 			return
 		}
 		if g.Tree != nil && g.Tree.Mismatch != "" {
@@ -1504,6 +1640,8 @@ func main() {
 		execReq("ok-errNN-ok", leafs(0, 3, 0), false),
 		execReq("panicNN", leafs(4), false),
 		execReq("nested", []fieldSpec{{Kind: "o", Outcome: 0, Children: leafs(0, 1)}, {Kind: "f", Outcome: 0}}, false),
+		// resolvers that return a non-nil value TOGETHER WITH an error (scalar, object, non-null scalar) and a thunk
+		execReq("thunk-errval-errvalNN", []fieldSpec{withRet(fld("f", 0), retThunk), withRet(fld("f", 1), retValueAndError), withRet(fld("o", 1, fld("f", 0)), retValueAndError), withRet(fld("g", 3), retValueAndError)}, false),
 	}
 	if run.Thorough() {
 		shapes = append(shapes,
@@ -1568,7 +1706,7 @@ func main() {
 	}{
 		{"ctx-ok-ok", leafs(0, 0), []int{0, 1}},
 		{"ctx-err-panic-ok", leafs(1, 2, 0), []int{0, 1, 2}},
-		{"ctx-nested", []fieldSpec{fld("o", 0, fld("f", 0), fld("f", 1)), fld("g", 3), fld("f", 0)}, []int{1, 3}},
+		{"ctx-nested", []fieldSpec{fld("o", 0, fld("f", 0), withRet(fld("f", 1), retValueAndError)), withRet(fld("g", 3), retValueAndError), fld("f", 0)}, []int{1, 3}},
 		{"ctx-typename", []fieldSpec{tn(), list("l", 0, 2, tnu(), fld("f", 0)), fld("f", 0)}, []int{0, 2, 4}},
 	}
 	for nExt := 1; nExt <= 2 && !run.TooManyViolations(); nExt++ {
@@ -1728,6 +1866,11 @@ func main() {
 					f := fld("f", 0)
 					if r.Chance(pFail, 6) {
 						f.Outcome = 1 + r.Intn(2)
+						if f.Outcome == 1 && r.Chance(1, 2) {
+							f.Ret = retValueAndError // kept when the field becomes g / o / i / u / l / li: a partial object or list with an error
+						}
+					} else if r.Chance(1, 8) {
+						f.Ret = retThunk
 					}
 					switch {
 					case r.Chance(pTn, 8) || (typ == "U" && wraps >= 2):
@@ -1763,6 +1906,9 @@ func main() {
 						f = fld([]string{"schema", "type"}[r.Intn(2)], 0)
 					case typ == "Alt" && r.Chance(1, 2):
 						f.Kind = "d"
+					}
+					if f.Ret == retThunk && f.Kind != "f" && f.Kind != "g" && f.Kind != "d" {
+						f.Ret = retPlain // thunks only for leaf fields (a composite thunk would defer its sub-selection)
 					}
 					fs = append(fs, dir(f))
 				}
@@ -1802,5 +1948,7 @@ func main() {
 	}
 	run.Res.Extra["typename_resolve_notifications"] = typenameNotifs
 	run.Res.Extra["response_field_positions_checked"] = treePositions
+	run.Res.Extra["finish_values_checked"] = finishValues
+	run.Res.Extra["finish_values_checked_value_and_error"] = valueAndError
 	run.Finish()
 }
